@@ -127,7 +127,31 @@ def fd(script):
     return u
 
 
-RAW = {"fa": fa, "fb": fb, "fc": fc, "ga": ga, "fd": fd}
+def gst(node):
+    """Starter: creates the generator described by node["g"], advances it to its first yield and
+    parks it in node["box"]; the generator outlives this activation."""
+    u = node["u0"]
+    w = node["w0"]
+    g = DISPATCH["ga"](node["g"])
+    node["box"].append(g)
+    next(g)
+    _kids(node["pre"])
+    return node["ret"]
+
+
+def gco(node):
+    """Consumer: advances a parked generator from inside its *own* activation."""
+    u = node["u0"]
+    w = node["w0"]
+    _kids(node["pre"])
+    g = node["box"].pop()
+    next(g, None)
+    next(g, None)
+    _kids(node["post"])
+    return node["ret"]
+
+
+RAW = {"fa": fa, "fb": fb, "fc": fc, "ga": ga, "fd": fd, "gst": gst, "gco": gco}
 DISPATCH.update(RAW)
 
 
